@@ -221,6 +221,41 @@ pub fn edit(rng: &mut Rng, m: &mut MMappings, counts: &mut dyn FnMut(&str)) {
 	}
 }
 
+/// many edits inside ONE class in one step: its name (renamed, or given for the first time), its comment, and
+/// every field / method / parameter below it with probability 1/2 each (name, comment), plus new parameters —
+/// so that one edge file carries several changes below one entry, at several levels at once
+pub fn edit_burst(rng: &mut Rng, m: &mut MMappings, counts: &mut dyn FnMut(&str)) {
+	if m.classes.is_empty() { return; }
+	let i = rng.below(m.classes.len());
+	let s = src(&m.classes[i]).clone();
+	let can_name = m.classes[i].names[NAMED].is_some() || ancestors_named(m, &s);
+	if can_name && rng.chance(1, 2) {
+		counts(if m.classes[i].names[NAMED].is_some() { "burst:class-rename" } else { "burst:class-name-add" });
+		m.classes[i].names[NAMED] = Some(fresh_class_named(rng, is_nested(&s)));
+	}
+	fn toggle(rng: &mut Rng, doc: &mut Option<S>) { *doc = if doc.is_some() && rng.chance(1, 2) { None } else { Some(fresh_doc(rng)) }; }
+	let c = &mut m.classes[i];
+	if rng.chance(1, 2) { toggle(rng, &mut c.doc); }
+	for f in c.fields.iter_mut() {
+		if rng.chance(1, 2) { f.names[NAMED] = Some(fresh_member(rng)); }
+		if rng.chance(1, 2) { toggle(rng, &mut f.doc); }
+	}
+	for me in c.methods.iter_mut() {
+		if rng.chance(1, 2) { me.names[NAMED] = Some(fresh_member(rng)); }
+		if rng.chance(1, 2) { toggle(rng, &mut me.doc); }
+		for p in me.params.iter_mut() {
+			if rng.chance(1, 2) { p.names[NAMED] = Some(cps_str(&format!("param{}", rng.below(100)))); }
+			if rng.chance(1, 2) { toggle(rng, &mut p.doc); }
+		}
+		for _ in 0..rng.below(3) {
+			let index = rng.below(8) as u64;
+			if me.params.iter().any(|p| p.index == index) { continue; }
+			me.params.push(MParam { index, names: vec![None, Some(cps_str(&format!("param{}", rng.below(100))))], doc: if rng.chance(1, 2) { Some(fresh_doc(rng)) } else { None } });
+		}
+	}
+	counts("edit:burst");
+}
+
 // ---------- diff + text ----------
 #[derive(Clone, Debug, PartialEq)]
 pub enum Act { None, Same(S), Add(S), Remove(S), Edit(S, S) }
